@@ -246,16 +246,21 @@ def coq_eval_many(ctx, files, timeout=900):
         while pending and len(running) < 14:
             name, _ = pending.pop(0)
             path = os.path.join(ctx.work, name + ".v")
-            p = subprocess.Popen(["coqc", "-Q", COQ, "SX", "-Q", ctx.work, "W", path], stdout=subprocess.PIPE,
+            # output goes to a file: a pipe would block a child that prints more than the pipe buffer holds
+            logf = open(os.path.join(ctx.work, name + ".out"), "w")
+            p = subprocess.Popen(["coqc", "-Q", COQ, "SX", "-Q", ctx.work, "W", path], stdout=logf,
                                  stderr=subprocess.STDOUT, text=True, cwd=ctx.work)
-            running.append((name, p, time.time()))
+            running.append((name, p, time.time(), logf))
         for item in list(running):
-            name, p, t0 = item
+            name, p, t0, logf = item
             if p.poll() is not None:
-                out.append((name, p.returncode == 0, p.stdout.read()))
+                logf.close()
+                out.append((name, p.returncode == 0, open(os.path.join(ctx.work, name + ".out")).read()))
                 running.remove(item)
             elif time.time() - t0 > timeout:
                 p.kill()
+                p.wait()
+                logf.close()
                 out.append((name, False, "TIMEOUT"))
                 running.remove(item)
         time.sleep(0.05)
